@@ -273,6 +273,7 @@ class Session:
     def __init__(self, interp, sdef, cfg):
         self.I, self.sdef, self.cfg = interp, sdef, cfg
         self.prefix = f"{sdef.prop}/{sdef.name}" + (f"[{cfg}]" if cfg is not None else "")
+        interp.ctx.ghost["prefix"] = self.prefix
 
     # ---- symbolic inputs (preconditions)
     @property
@@ -573,6 +574,15 @@ class LoopSpec:
         # they are made undefined so that a use after/before assignment cannot silently see a stale value
         for m in temporaries:
             env.vars.pop(m, None)
+            env.vars.setdefault("__havoced__", {})[m] = self.label
+
+    def _check(self, I, env, i, tag):
+        """run the contract's check; a state that does not even have the FORM the invariant talks about (the
+        contract code cannot read it) is a failed invariant obligation, not a checker error"""
+        try:
+            self.check(I, env, i, tag)
+        except (Unsupported, TypeError, AttributeError, KeyError, IndexError) as e:
+            I.ctx.oblige(f"{I.ctx.ghost.get('prefix', '?')}/inv:{self.label}/{tag}:loop-state-has-the-form-the-invariant-describes", False, (), "inv", {"msg": f"{type(e).__name__}: {e}"})
 
     def run_for(self, I, st, env, it):
         from .interp import SymRange, BreakEx, ContinueEx
@@ -598,7 +608,7 @@ class LoopSpec:
         if not (isinstance(it.start, int) and it.start == 0 and isinstance(it.step, int) and it.step == 1):
             raise Unsupported("loop contract: range must start at 0 with step 1")
         N = zint(it.stop)
-        self.check(I, env, 0, "inv-init")
+        self._check(I, env, 0, "inv-init")
         which = I.choose(2, "loop")
         if which == 0:
             i = z3.Int(core.fresh_name("it"))
@@ -612,7 +622,7 @@ class LoopSpec:
                 pass
             except BreakEx:
                 raise Unsupported("break inside a loop under contract")
-            self.check(I, env, concretize(Sym(z3.simplify(i + 1), "int")), "inv-step")
+            self._check(I, env, concretize(Sym(z3.simplify(i + 1), "int")), "inv-step")
             raise PathEnd("loop step verified")
         I.ctx.assume(N >= 0)
         self._havoc_guard(I, st, env, None)
@@ -623,7 +633,7 @@ class LoopSpec:
     def run_while(self, I, st, env):
         from .interp import BreakEx, ContinueEx
 
-        self.check(I, env, None, "inv-init")
+        self._check(I, env, None, "inv-init")
         which = I.choose(2, "loop")
         self._havoc_guard(I, st, env, None)
         self.make(I, env, None)
@@ -637,7 +647,7 @@ class LoopSpec:
                 pass
             except BreakEx:
                 raise Unsupported("break inside a loop under contract")
-            self.check(I, env, None, "inv-step")
+            self._check(I, env, None, "inv-step")
             raise PathEnd("loop step verified")
         if c:
             raise PathEnd("loop exit: condition still true")
